@@ -14,6 +14,7 @@ Definition TAG_H := 1.        (* handler ran:        hid args...                
 Definition TAG_PROBE := 2.    (* probe sink saw:     probe type size seq fam addr port len digest *)
 Definition TAG_DROP := 3.     (* user drop callback: id type size seq           *)
 Definition TAG_RET := 4.      (* synchronous result: opcode object values...    *)
+Definition TAG_DIAG := 8.     (* model-only diagnostic, not compared: socket closed with segments still parked *)
 Definition TAG_FUEL := 9.     (* the model hit something the C++ has no defined behaviour for
                                  (null channel, moved-from handler, ...) or its synchronous bound *)
 
